@@ -8,6 +8,7 @@ Spec column: `<tree>` (strict), `<tree>|err` (either outcome allowed, nothing el
 dump of the Go value the record was made from) differs from the spec's tree.
 -/
 import ZygoVerif.Model.ToGo
+import ZygoVerif.Model.ToGoHist
 import ZygoVerif.Spec.RecordGo
 import ZygoVerif.Driver.Proto
 namespace ZygoVerif.Driver.Togo
@@ -84,6 +85,12 @@ def parseInt? (s : String) : Option Int :=
 
 abbrev Defs := List (Nat × Sx)
 
+def parseKey (kt : String) : Option Key :=
+  if kt.startsWith "ki" then (parseInt? (dropS kt 2)).map Key.int
+  else if kt.startsWith "k" then (parseCodes? (dropS kt 1)).map Key.sym
+  else if kt.startsWith "K" then (parseCodes? (dropS kt 1)).map Key.str
+  else none
+
 mutual
 partial def parseTerm (defs : Defs) : List String → Option (Sx × Defs × List String)
   | [] => none
@@ -129,10 +136,7 @@ partial def parseKVs : Nat → Defs → List String → Option (List (Key × Sx)
   | 0, defs, r => some ([], defs, r)
   | _, _, [] => none
   | n+1, defs, kt :: r => do
-    let key ← (if kt.startsWith "ki" then (parseInt? (dropS kt 2)).map Key.int
-      else if kt.startsWith "k" then (parseCodes? (dropS kt 1)).map Key.sym
-      else if kt.startsWith "K" then (parseCodes? (dropS kt 1)).map Key.str
-      else none)
+    let key ← parseKey kt
     let (x, d1, r1) ← parseTerm defs r
     let (kvs, d2, r2) ← parseKVs n d1 r1
     pure ((key, x) :: kvs, d2, r2)
@@ -249,7 +253,10 @@ def handle (toks : List String) : String :=
         let want : Option String := if mode == "echo" then rootDef.map (·.name) else none
         if mode != "conv" && mode != "echo" then "bad-op\t-" else
         -- model
-        let m : String := match toGoTop w fuel want x with
+        let m : String :=
+          -- a record of a type with an embedded pointer cannot even be constructed (MakeHash panics)
+          if !ToGoHist.constructible w fuel x then "err" else
+          match toGoTop w fuel want x with
           | .error .err => "err"
           | .error .fuel => "model-out-of-scope"
           | .ok (o, st) =>
